@@ -360,7 +360,20 @@ def pred_container_then_interproc(chain):
     return False
 
 
+def pred_closure_crosses_goroutine(chain):
+    """a closure that reads a captured variable is created on one goroutine and called on another"""
+    made = None
+    for s_, d in chain:
+        if semgen.STEPS[s_][1] == "C":
+            made = (d == "go")
+        elif made is not None and s_ == "callclo":
+            if made != (d == "go"):
+                return True
+    return False
+
+
 KNOWN_PREDS = {"clo_ret_then_capture": pred_clo_ret_then_capture,
+               "closure_crosses_goroutine": pred_closure_crosses_goroutine,
                "container_then_interproc": pred_container_then_interproc,
                "closure_from_inner_closure": pred_closure_from_inner_closure,
                "validator_guard_else_arm": pred_validator_guard_else_arm}
